@@ -163,59 +163,7 @@ Proof.
     split; [lia|done].
 Qed.
 
-(** ** push: [bubble_up] does not look at [ssize] *)
-Definition lift_size {A} (n : nat) (r : res store (A * store)) : res store (A * store) :=
-  match r with
-  | Ok (a, s) => Ok (a, set_size s n)
-  | Unwound s => Unwound (set_size s n)
-  | Fault f => Fault f
-  end.
-
-Lemma cmp_lt_set_size (s : store) n a b :
-  cmp_lt ple (set_size s n) a b = lift_size n (cmp_lt ple s a b).
-Proof.
-  unfold cmp_lt, cb. change (fuse (set_size s n)) with (fuse s).
-  destruct (fuse s) as [[|k]|]; reflexivity.
-Qed.
-
-Lemma bubble_up_loop_set_size fuel : forall (s : store) n pos p,
-  bubble_up_loop ple fuel (set_size s n) pos p = lift_size n (bubble_up_loop ple fuel s pos p).
-Proof.
-  induction fuel as [|fuel IH]; intros s n pos p; [reflexivity|].
-  cbn [bubble_up_loop]. destruct pos as [|k]; [reflexivity|].
-  cbn [parent mbind res_bind rbind].
-  unfold prio_at, getu. change (heap (set_size s n)) with (heap s).
-  change (smap (set_size s n)) with (smap s).
-  destruct (heap s !! (k / 2)) as [hi|]; cbn [mbind res_bind rbind]; [|reflexivity].
-  destruct (smap s !! hi) as [e|]; cbn [unwrap mbind res_bind rbind]; [|reflexivity].
-  rewrite cmp_lt_set_size.
-  destruct (cmp_lt ple s e.2 p) as [[b s1]| |]; cbn [lift_size mbind res_bind rbind]; try reflexivity.
-  destruct b; [|reflexivity].
-  change (heap (set_size s1 n)) with (heap s1). change (qp (set_size s1 n)) with (qp s1).
-  destruct (heap s1 !! (k / 2)) as [pidx|]; cbn [mbind res_bind rbind]; [|reflexivity].
-  unfold setu.
-  destruct (decide (S k < length (heap s1))); cbn [mbind res_bind rbind]; [|reflexivity].
-  destruct (decide (pidx < length (qp s1))); cbn [mbind res_bind rbind]; [|reflexivity].
-  apply (IH (set_qp (set_heap s1 (<[S k:=pidx]> (heap s1))) (<[pidx:=S k]> (qp s1))) n).
-Qed.
-
-Lemma bubble_up_set_size (s : store) n pos idx :
-  bubble_up ple (set_size s n) pos idx = lift_size n (bubble_up ple s pos idx).
-Proof.
-  unfold bubble_up. change (smap (set_size s n)) with (smap s).
-  destruct (smap s !! idx) as [e|]; cbn [unwrap mbind res_bind rbind]; [|reflexivity].
-  rewrite bubble_up_loop_set_size.
-  destruct (bubble_up_loop ple (S pos) s pos e.2) as [[pos' s1]| |];
-    cbn [lift_size mbind res_bind rbind]; try reflexivity.
-  change (heap (set_size s1 n)) with (heap s1). change (qp (set_size s1 n)) with (qp s1).
-  unfold setu.
-  destruct (decide (pos' < length (heap s1))); cbn [mbind res_bind rbind]; [|reflexivity].
-  destruct (decide (idx < length (qp s1))); cbn [mbind res_bind rbind]; reflexivity.
-Qed.
-
-Lemma set_size_id (s : store) n : ssize s = S n -> set_size (set_size s n) (S n) = s.
-Proof. destruct s. cbn. intros ->. reflexivity. Qed.
-
+(** ** push *)
 Theorem pq_push_thm : pq_push_stmt keq hash ple.
 Proof.
   intros Hk Ho o s k p Hinv. pose proof Hinv as (HWF & Hf & Hord).
@@ -236,8 +184,7 @@ Proof.
     destruct (push_entry_ok Hk s (k, p) HWF Hg) as [HWFp Hevp].
     set (n := ssize s).
     set (pe := push_entry s (k, p)) in *.
-    change (bubble_up ple _ _ _) with (bubble_up ple (set_size pe n) n n).
-    rewrite bubble_up_set_size.
+    change (bubble_up ple _ _ _) with (bubble_up ple pe n n).
     pose proof HWF as (Lm & (Lh & Lq & _) & _).
     assert (Hhn : heap pe !! n = Some n) by (apply list_lookup_middle; done).
     assert (Hqn : qp pe !! n = Some n) by (apply list_lookup_middle; done).
@@ -246,9 +193,7 @@ Proof.
     destruct (bubble_up_sim' pe n n HWFf Hf) as
       (s' & pos' & l' & t & Hab & Hco & HWF' & Hev' & Hm' & Hsz' & Htk' & Hfu' & Hcp' & Hle).
     { change (ssize pe) with (S n). lia. } { change (ssize pe) with (S n). lia. }
-    rewrite Hco. cbn [lift_size mbind res_bind rbind].
-    change (ssize (set_size s' n)) with n.
-    rewrite (set_size_id s' n Hsz').
+    rewrite Hco. cbn [mbind res_bind rbind].
     rewrite Hfill, Hevp in Hab.
     exists None, s'. split; [done|]. splits; try done.
     + rewrite Hfu'. done.
@@ -614,6 +559,8 @@ Proof.
   assert (Hnd' : nodup_keys keq m') by (by apply retain_list_nodup).
   assert (Hlen : length m' <= ssize s).
   { rewrite <- Lm. apply retain_list_length. }
+  unfold realign. cbv zeta.
+  change (smap (set_map s m')) with m'.
   change (ssize (set_map s m')) with (ssize s).
   destruct (decide (length m' = ssize s)) as [Heq|Hne]; cbn [mbind res_bind rbind].
   - assert (Hinv1 : pq_inv false (set_map s m')).
